@@ -811,6 +811,22 @@ func genC17(t *rapid.T) C17Case {
 	for i := rapid.IntRange(0, 3).Draw(t, "extras"); i > 0; i-- {
 		leds = append(leds, fmt.Sprintf("Logo %d", i))
 	}
+	// LEDs that real controllers list and HIDI has no key for: ISO variants, media and function keys, light bars. They are not
+	// LEDs of mapped keys; the LEDs of the mapped keys are owed their colours whatever else the controller lists, in any order.
+	if rapid.IntRange(0, 2).Draw(t, "realExtras") == 0 {
+		pool := []string{"Key: \\ (ISO)", "Key: #", "Key: Enter (ISO)", "Key: Fn", "Key: Media Play/Pause", "Key: Media Mute", "Key: Brightness", "Underglow 1",
+			"Light Bar 3", "Key: Right Fn", "Key: Number Pad Clear", "key: a", "Key: A ", "Key:A"}
+		known := map[string]bool{}
+		for _, n := range device.KeyToLedName {
+			known[n] = true
+		}
+		pp := rapid.Permutation(indices(len(pool))).Draw(t, "realExtraOrder")
+		for i := rapid.IntRange(1, 5).Draw(t, "realExtraN"); i > 0; i-- {
+			if n := pool[pp[i]]; !known[n] {
+				leds = append(leds, n)
+			}
+		}
+	}
 	if len(leds) == 0 {
 		leds = []string{device.KeyToLedName[evdev.EvCode(codes[0])]}
 	}
@@ -901,6 +917,10 @@ func genC17(t *rapid.T) C17Case {
 				}
 			}
 			var m []byte
+			if rapid.IntRange(0, 5).Draw(t, "otherMessage") == 0 {
+				// something that is not a note: it changes no highlight (and must not stop the notes after it from doing so)
+				c.Steps = append(c.Steps, LedStep{T: "midi", Midi: otherMidiMessage(t)})
+			}
 			switch rapid.IntRange(0, 4).Draw(t, "midiKind") {
 			case 0:
 				m = []byte{0x80 | byte(ch), byte(note), 0}
